@@ -152,6 +152,38 @@ fn consistent_images() -> Vec<(String, Vec<u8>)> {
         s.skip_host = vec![4, 5];
         out.push((format!("built-short-l1-c{}-r{}", cb, order), spec::build_image(&s).bytes));
     }
+    // a refcount table with a hole: entry 1 is empty (nothing in clusters 64..127), entry 2 is used
+    {
+        let (cb, order) = (9u32, 6u32);
+        let mut s = ImageSpec::new(cb, order, 64 << cb);
+        s.kinds = vec![GKind::Unalloc; 64];
+        for c in 0..12 {
+            s.kinds[c] = GKind::Data;
+        }
+        // everything after the first few clusters goes behind cluster 128
+        s.skip_host = (12..129).collect();
+        s.min_file_clusters = 140;
+        let mut img = spec::build_image(&s).bytes;
+        let h = spec::parse_header(&img).unwrap();
+        let e1 = h.rt_off as usize + 8;
+        let rb1 = (u64::from_be_bytes(img[e1..e1 + 8].try_into().unwrap()) & !0x1ff) as usize;
+        if rb1 != 0 {
+            // drop refcount block 1 (it counts nothing) and release its cluster
+            img[e1..e1 + 8].copy_from_slice(&[0u8; 8]);
+            let c = rb1 >> cb;
+            let (cs, _, rbe) = spec::geometry(cb, order);
+            let ri = c / rbe;
+            let eo = h.rt_off as usize + ri * 8;
+            let rb = (u64::from_be_bytes(img[eo..eo + 8].try_into().unwrap()) & !0x1ff) as usize;
+            spec::rc_set(&mut img[rb..rb + cs], order, c % rbe, 0);
+            for b in img[rb1..rb1 + cs].iter_mut() {
+                *b = 0;
+            }
+            if check_image(&img).strict_ok() {
+                out.push(("built-reftable-hole-c9-r6".to_string(), img));
+            }
+        }
+    }
     // flushed states of histories run on the real code (holes from discards)
     for g in [crate::images::G10, crate::images::G9, crate::images::G12] {
         let img = crate::images::lib_formatted(g.cluster_bits, g.order, g.vsize());
